@@ -212,7 +212,11 @@ func core3Prepare(named map[string]*types.StructType, a []string) (*ir.Func, fun
 	}
 	var pends []pend
 	blocks := map[c3ident]*ir.Block{}
-	for _, bs := range strings.Split(a[3], "/") {
+	var blockDescs []string
+	if a[3] != "-" { // `-`: no blocks (a function declaration)
+		blockDescs = strings.Split(a[3], "/")
+	}
+	for _, bs := range blockDescs {
 		f := strings.Split(bs, "^")
 		lab := c3Ident(f[0])
 		b := fn.NewBlock(lab.name)
